@@ -94,7 +94,6 @@ package testing
 //@
 //@ func (*T).Reset @taken
 //@   props C02 C03
-//@   trusted frame taken from the verified base contract: resetting a handle touches only the handle
 //@   modifies t.Iteration, t.failed, t.teardownFailed, t.tearingDown, t.teardownStack
 //@
 //@ func (*T).Cleanup
